@@ -511,10 +511,11 @@ impl Worker {
     }
 }
 
-/// hang sites that are already confirmed and listed in known_findings.txt: they are not
-/// re-run with the long limit (every other HANG is)
-fn known_hang_site(line: &str, tags: &str) -> bool {
-    line.split(' ').nth(1) == Some("ocf") || tags.contains("witness:thrift-skip-bool-list")
+/// hang sites that are confirmed, still unrepaired and listed in known_findings.txt are not re-run
+/// with the long limit.  There is none at present (the Avro OCF loop and the thrift list<bool>
+/// skip are repaired): every HANG is confirmed by the long re-run before it is reported.
+fn known_hang_site(_line: &str, _tags: &str) -> bool {
+    false
 }
 
 impl Drop for Worker {
